@@ -119,6 +119,9 @@ func setupTLS(c *casket.Controller) error {
 				config.Issuer.CA = arg[0]
 			case "key_type":
 				arg := c.RemainingArgs()
+				if len(arg) != 1 {
+					return c.ArgErr()
+				}
 				value, ok := supportedKeyTypes[strings.ToUpper(arg[0])]
 				if !ok {
 					return c.Errf("Wrong key type name or key type not supported: '%s'", c.Val())
@@ -127,6 +130,9 @@ func setupTLS(c *casket.Controller) error {
 				config.Manager.KeySource = certmagic.StandardKeyGenerator{KeyType: value}
 			case "protocols":
 				args := c.RemainingArgs()
+				if len(args) == 0 {
+					return c.ArgErr()
+				}
 				if len(args) == 1 {
 					value, ok := SupportedProtocols[strings.ToLower(args[0])]
 					if !ok {
